@@ -97,9 +97,15 @@ def run(case, ctx):
         for op in case["again"]:
             q = seqs[op["s"] % len(seqs)]
             if op["op"] == "transpose":
-                q.transpose(op["k"])
+                # applied to every sequence alike and only when nothing wraps: keeps the input inside the property's scope
+                # (well-formed after channel erasure, one key per tick over all carriers)
+                allp = [n[1] for sq in case["seqs"] for n in sq["notes"]]
+                if all(21 <= pp + op["k"] <= 108 for pp in allp):
+                    for x in seqs:
+                        x.transpose(op["k"])
             elif op["op"] == "scale":
-                q.scale(abs(op["k"]) + 1, quantise_afterwards=False)
+                for x in seqs:
+                    x.scale(abs(op["k"]) + 1, quantise_afterwards=False)
             elif op["op"] == "set_channel":
                 q.set_channel(abs(op["k"]))
             elif op["op"] == "iter_rel_velocity_edit":
